@@ -1968,6 +1968,61 @@ func searchHelperIndexX(c *core.Ctx, fn *ssa.Function, use ssa.Instruction, idx 
 			n++
 			continue
 		}
+		if withFlag {
+			// `return j, j < w.NumField()` after a condition-controlled search loop `for j <
+			// w.NumField() && !match(j) { j++ }`: every path to the return crossed the match,
+			// or the edge j >= w.NumField() — on which the flag returned is false (the bound is
+			// the same pure call on the same receiver), and the caller uses the index only
+			// where the flag is true
+			if fl, ok := core.Canon(core.RetVal(ret, 1)).(*ssa.BinOp); ok && fl.Op == token.LSS && core.SameValue(fl.X, core.RetVal(ret, 0)) {
+				if bound, isCall := core.Canon(fl.Y).(*ssa.Call); isCall {
+					sameBound := func(v ssa.Value) bool {
+						b2, ok := core.Canon(v).(*ssa.Call)
+						if !ok {
+							return false
+						}
+						f1, f2 := bound.Call.StaticCallee(), b2.Call.StaticCallee()
+						if f1 == nil || f1 != f2 || len(bound.Call.Args) != len(b2.Call.Args) {
+							// len(x) builtins
+							bi1, ok1 := bound.Call.Value.(*ssa.Builtin)
+							bi2, ok2 := b2.Call.Value.(*ssa.Builtin)
+							if !(ok1 && ok2 && bi1.Name() == "len" && bi2.Name() == "len") {
+								return false
+							}
+						}
+						for i := range bound.Call.Args {
+							if !core.SameValue(bound.Call.Args[i], b2.Call.Args[i]) {
+								return false
+							}
+						}
+						pure := false
+						if f1 != nil && f1.Pkg != nil && f1.Pkg.Pkg.Path() == "reflect" && (f1.Name() == "NumField" || f1.Name() == "Len") {
+							pure = true
+						}
+						if bi, ok := bound.Call.Value.(*ssa.Builtin); ok && bi.Name() == "len" {
+							pure = true
+						}
+						return pure
+					}
+					idxV := core.RetVal(ret, 0)
+					pastEnd := func(cm core.Cmp) (bool, bool) {
+						if core.SameValue(cm.X, idxV) && sameBound(cm.Y) {
+							switch cm.Op {
+							case token.GEQ:
+								return true, false
+							case token.LSS:
+								return false, true
+							}
+						}
+						return false, false
+					}
+					if core.Guarded(h, ret, core.AnyOf(matcherFor(h, idxV), pastEnd)) {
+						n++
+						continue
+					}
+				}
+			}
+		}
 		if !holds(ret, core.RetVal(ret, 0), 0) {
 			return false
 		}
